@@ -67,6 +67,7 @@ type crlExt struct {
 type crlModel struct {
 	v2         bool
 	issuer     *dn
+	isp        *issuerSpec // generated issuer of an independent-writer CRL (nil: the CA's own name)
 	thisUpdate time.Time
 	nextUpdate time.Time // zero = absent
 	entries    []crlEntry
@@ -343,6 +344,14 @@ func runC14(c *core.Ctx) {
 		ca := env.cas[ci]
 		via := r.IntN(5) == 0
 		m := genCRLModel(r, ca.name, via)
+		if !via && r.IntN(4) != 0 {
+			// CheckCRLForCert does not tie the CRL issuer to the certificate: the CRL carries a name of its own
+			m.isp = genIssuer(r, fmt.Sprintf("CRL issuer %d-%d", c.Shard, i))
+			m.issuer = m.isp.name
+			for _, t := range m.isp.traits {
+				c.Count("issuer_trait_"+t, 1)
+			}
+		}
 		caseID := fmt.Sprintf("C14/s%d/%d/%d", c.Seed, c.Shard, i)
 		var der []byte
 		if via {
@@ -372,6 +381,10 @@ func runC14(c *core.Ctx) {
 		var perr error
 		if pi := core.Guard(func() { cl, perr = zx509.ParseDERCRL(der) }); pi != nil {
 			c.Violation(pi.Key, "ParseDERCRL panicked on a well-formed CRL\n"+pi.Stack, caseID, map[string]any{"crl": core.FullHex(der)})
+			continue
+		}
+		if perr != nil && m.isp != nil && m.isp.exotic {
+			c.Count("crl_with_exotic_issuer_refused_by_parser", 1) // empty SET / T61 / BMP / non-string value: the parser may say no
 			continue
 		}
 		if perr != nil {
@@ -479,14 +492,8 @@ func checkCRLCase(env *c14env, m *crlModel, ci int, cl *pkix.CertificateList, de
 }
 
 func checkCopied(c *core.Ctx, m *crlModel, d *zcrl.RevocationData, intRange bool) (string, string) {
-	// issuer: attribute types and values in order
-	var got []string
-	for _, a := range d.Issuer.Names {
-		got = append(got, a.Type.String()+"="+fmt.Sprint(a.Value))
-	}
-	want := m.issuer.flat()
-	if strings.Join(got, "|") != strings.Join(want, "|") {
-		return "issuer", fmt.Sprintf("issuer attributes %q, CRL has %q", got, want)
+	if key, detail := checkIssuerCopy(c, m, d); key != "" {
+		return key, detail
 	}
 	if !d.ThisUpdate.Equal(m.thisUpdate) {
 		return "thisUpdate", fmt.Sprintf("ThisUpdate=%v want %v", d.ThisUpdate.UTC(), m.thisUpdate)
@@ -546,6 +553,69 @@ func checkCopied(c *core.Ctx, m *crlModel, d *zcrl.RevocationData, intRange bool
 			c.Count("soft_signature_copy_mismatch", 1)
 		} else {
 			c.Count("soft_signature_copy_ok", 1)
+		}
+	}
+	return "", ""
+}
+
+// checkIssuerCopy compares the Issuer of a result with the issuer the harness wrote into the CRL:
+// (type, value, RDN index) of the sequence the result hands out, its re-marshalled bytes, and the flat attribute list.
+func checkIssuerCopy(c *core.Ctx, m *crlModel, d *zcrl.RevocationData) (string, string) {
+	sp := m.isp
+	if sp == nil { // CA names: single-valued RDNs, ASCII sometimes inside UTF8String (not reproduced by a re-marshal)
+		sp = &issuerSpec{name: m.issuer, sorted: true, sortedDER: m.issuer.der}
+	}
+	undecodable := false
+	for _, v := range []struct {
+		name string
+		seq  pkix.RDNSequence
+	}{{"ToRDNSequence", d.Issuer.ToRDNSequence()}, {"OriginalRDNS", d.Issuer.OriginalRDNS}} {
+		ok, undec, detail := compareRDNs(v.seq, sp.name)
+		if !ok {
+			return "issuer-rdn-structure:" + v.name, detail
+		}
+		if undec {
+			undecodable = true
+			c.Count("issuer_value_of_unexpected_go_type", 1)
+			continue
+		}
+		var b []byte
+		var err error
+		if pi := core.Guard(func() { b, err = marshalRDNs(v.seq) }); pi != nil {
+			return pi.Key, "re-marshalling the result's issuer panicked\n" + pi.Stack
+		}
+		switch {
+		case err != nil && sp.stable && !sp.exotic:
+			return "issuer-remarshal-error:" + v.name, err.Error()
+		case err != nil:
+			c.Count("issuer_remarshal_error_exotic_or_unstable", 1)
+		case bytes.Equal(b, sp.name.der):
+			c.Count("issuer_remarshal_identical", 1)
+		case !sp.sorted && bytes.Equal(b, sp.sortedDER):
+			c.Count("issuer_remarshal_reordered_by_der_set_sorting", 1)
+		case sp.stable && sp.sorted:
+			return "issuer-remarshal:" + v.name, fmt.Sprintf("re-marshalled issuer %x, the CRL carries %x", b, sp.name.der)
+		case sp.stable:
+			c.Count("issuer_remarshal_differs_unsorted_set", 1)
+		default:
+			c.Count("issuer_remarshal_differs_string_type_not_reproducible", 1)
+		}
+	}
+	if !undecodable {
+		// the flattened attribute list, in encoding order
+		var got []string
+		for _, a := range d.Issuer.Names {
+			k, _ := attrKey(a)
+			got = append(got, k)
+		}
+		var want []string
+		for _, rdn := range sp.name.rdns {
+			for _, a := range rdn {
+				want = append(want, modelAttrKey(a))
+			}
+		}
+		if strings.Join(got, "|") != strings.Join(want, "|") {
+			return "issuer", fmt.Sprintf("issuer attributes %q, CRL has %q", got, want)
 		}
 	}
 	return "", ""
